@@ -9,8 +9,15 @@ from numba_scfg.core.datastructures.basic_block import RegionBlock
 from .record import exc_sig
 
 
+# view objects taken after the previous stage of the same graph object and kept: a view is a LIVE view, so iterating it again after the
+# graph has been transformed must enumerate the graph as it is now
+_HELD: Dict[int, Dict[str, Any]] = {}
+
+
 def views(stage: str, scfg: Any, inp: Any) -> Dict[str, Any]:
-    out: Dict[str, Any] = {"iter": [], "iterexc": "", "views": {}, "viewexc": {}, "from": {}}
+    out: Dict[str, Any] = {"iter": [], "iterexc": "", "views": {}, "viewexc": {}, "from": {}, "held": {}}
+    held_prev = _HELD.get(id(scfg), {}) if stage != "input" else {}
+    held_now: Dict[str, Any] = {}
     try:
         out["iter"] = [str(n) for n, _ in scfg]
     except Exception as e:
@@ -18,6 +25,18 @@ def views(stage: str, scfg: Any, inp: Any) -> Dict[str, Any]:
 
     def rec(g: Any, lvl: str, depth: int) -> None:
         out["viewexc"][lvl] = ""
+        hv = held_prev.get(lvl)
+        if hv is not None and hv[0] is g:
+            try:
+                out["held"][lvl] = [str(n) for n in hv[1]]
+            except Exception as e:
+                out["held"][lvl] = ["!" + exc_sig(e)]
+        try:
+            v_ = g.concealed_region_view
+            list(v_)                      # iterate once, then keep the object for the next stage
+            held_now[lvl] = (g, v_)
+        except Exception:
+            pass
         try:
             out["views"][lvl] = [str(n) for n in g.concealed_region_view]
         except Exception as e:
@@ -39,6 +58,8 @@ def views(stage: str, scfg: Any, inp: Any) -> Dict[str, Any]:
                 rec(b.subregion, str(n), depth + 1)
 
     rec(scfg, str(scfg.region.name), 0)
+    _HELD.clear()
+    _HELD[id(scfg)] = held_now
     return out
 
 
